@@ -623,6 +623,9 @@ pub enum PcOp {
     OverwriteAllThenInvalidate,
     /// rewrite page 1 of file 0 from outside, then invalidate_page(1)
     OverwritePage1ThenInvalidate,
+    /// rewrite bytes [off, off+len) of file 0 from outside, then invalidate_range(off, len) with exactly that
+    /// (unaligned, page-straddling) range
+    OverwriteRangeThenInvalidate(u64, usize),
 }
 
 impl fmt::Debug for PcOp {
@@ -635,6 +638,7 @@ impl fmt::Debug for PcOp {
             PcOp::InvalidateRange(x, o, l) => write!(f, "InvalidateRange(f{x},{o},{l})"),
             PcOp::OverwriteAllThenInvalidate => write!(f, "OverwriteAllThenInvalidate"),
             PcOp::OverwritePage1ThenInvalidate => write!(f, "OverwritePage1ThenInvalidate"),
+            PcOp::OverwriteRangeThenInvalidate(o, l) => write!(f, "OverwriteRangeThenInvalidate({o},{l})"),
         }
     }
 }
@@ -719,7 +723,7 @@ impl SeqSpec for PcSpec {
     }
     fn bound(&self, tier: Tier) -> String {
         format!(
-            "all histories of <= {} operations from {{8 reads of file 0 (2.5 pages) at page-boundary offsets, 1 read of file 1 (empty), read_batch, 2 prefetches, invalidate_page(0..=2), invalidate_range, external overwrite of the whole file / of page 1 followed by invalidation}}; every read is compared with the file; at the end of every history the grid offsets {:?} x lengths {:?} (file 0) and {:?} x {:?} (file 1) is read{}",
+            "all histories of <= {} operations from {{8 reads of file 0 (2.5 pages) at page-boundary offsets, 1 read of file 1 (empty), read_batch, 2 prefetches, invalidate_page(0..=2), invalidate_range, external overwrite of the whole file / of page 1 / of two unaligned page-straddling ranges followed by invalidation of exactly that range}}; every read is compared with the file; at the end of every history the grid offsets {:?} x lengths {:?} (file 0) and {:?} x {:?} (file 1) is read{}",
             self.depth(tier),
             Self::offsets(0),
             Self::lengths(0),
@@ -763,6 +767,9 @@ impl SeqSpec for PcSpec {
             PcOp::InvalidateRange(0, 4095, 2),
             PcOp::OverwriteAllThenInvalidate,
             PcOp::OverwritePage1ThenInvalidate,
+            // unaligned ranges whose tail crosses one more page boundary than their length suggests
+            PcOp::OverwriteRangeThenInvalidate(4000, 200),
+            PcOp::OverwriteRangeThenInvalidate(4095, 4098),
         ]
     }
     fn apply(&self, st: &mut PcSt, op: &PcOp) -> Result<(), Fail> {
@@ -797,9 +804,13 @@ impl SeqSpec for PcSpec {
                     .invalidate_range(st.fids[*f as usize], *off, *len)
                     .map_err(|e| failc("invalidate", "err", format!("invalidate_range({off},{len}) = Err({e})")))?;
             }
-            PcOp::OverwriteAllThenInvalidate | PcOp::OverwritePage1ThenInvalidate => {
+            PcOp::OverwriteAllThenInvalidate | PcOp::OverwritePage1ThenInvalidate | PcOp::OverwriteRangeThenInvalidate(..) => {
                 st.generation += 1;
-                let (from, to) = if *op == PcOp::OverwriteAllThenInvalidate { (0, F0_SIZE) } else { (PAGE_SIZE, 2 * PAGE_SIZE) };
+                let (from, to) = match op {
+                    PcOp::OverwriteAllThenInvalidate => (0, F0_SIZE),
+                    PcOp::OverwriteRangeThenInvalidate(o, l) => (*o as usize, (*o as usize + *l).min(F0_SIZE)),
+                    _ => (PAGE_SIZE, 2 * PAGE_SIZE),
+                };
                 for i in from..to {
                     st.files[0][i] = file_byte(st.generation, i);
                 }
@@ -811,6 +822,8 @@ impl SeqSpec for PcSpec {
                 drop(fh);
                 if *op == PcOp::OverwriteAllThenInvalidate {
                     st.cache.invalidate_range(st.fids[0], 0, F0_SIZE).map_err(|e| failc("invalidate", "err", format!("invalidate_range(0,{F0_SIZE}) = Err({e})")))?;
+                } else if let PcOp::OverwriteRangeThenInvalidate(o, l) = op {
+                    st.cache.invalidate_range(st.fids[0], *o, *l).map_err(|e| failc("invalidate", "err", format!("invalidate_range({o},{l}) = Err({e})")))?;
                 } else {
                     st.cache.invalidate_page(st.fids[0], 1).map_err(|e| failc("invalidate", "err", format!("invalidate_page(1) = Err({e})")))?;
                 }
